@@ -214,7 +214,7 @@ def run_group(scratch, package, features, harnesses, jobs, tier, idx):
     out_json = os.path.join(scratch.dir, f"kani-{idx}.json")
     gr.log = os.path.join(scratch.dir, f"kani-{idx}.log")
     names = full_names(scratch, None, harnesses, None)
-    default_to = 300 if tier == "quick" else 2400
+    default_to = 420 if tier == "quick" else 2400
     to = max([h.timeout or default_to for h in harnesses])
     if tier == "quick":
         to = min(to, 600)
